@@ -165,6 +165,16 @@ TraceNext ==
 TraceSpec == TraceInit /\ [][TraceNext]_tvars
 
 \* reporting: printed once, in the last state
+\* the limits the controller works with are the configured ones where the configuration gives them (hwmon fans:
+\* maxPwm always, minPwm for never-stop fans) - "the fan's minimum / maximum" of C01 and C02 is what the user wrote
+InitLimitsOk(e) ==
+  e.kind = "hwmon" =>
+    /\ (e.cfgMax >= 0 => e.mx = e.cfgMax)
+    /\ (e.cfgMin >= 0 /\ e.neverStop => e.gmin = e.cfgMin)
+C01_ConfiguredLimits ==
+  /\ (l = 2 => InitLimitsOk(Trace[1]))
+  /\ (l <= N /\ Trace[l].ev = "Init" => InitLimitsOk(Trace[l]))
+
 Report == l = N + 1 => PrintT(<<"TRACE-DONE", N, "DRIFT", drift>>)
 TraceAccepted == TLCGet("stats").diameter = N
 ==============================================================================
